@@ -246,6 +246,12 @@ class Monitor:
         self.dispatched = []
         self._orig_step = self.env.step
         self.env.step = self.step
+        self.req = {}
+        if 'head' in self.on:
+            # remember the priority every caller asked for: the order oracle must not read it back from the Event.
+            # (bound methods only: the counterfactual probe deep-copies the system together with this monitor)
+            self._orig_sched = self.env.schedule_event
+            self.env.schedule_event = self.sched
         model.pre.append(self.on_recv_first)
         need_proc = self.on & {'cycle', 'res', 'acct', 'cons', 'log', 'value'}
         for d in self.devs:
@@ -495,6 +501,21 @@ class Monitor:
             self.head_check(snap, now_before)
         self.post_event()
 
+    def sched(self, time, asset_id, action, event_type=None, message=''):
+        env = self.env
+        before = {id(e) for e in env._events}
+        if event_type is None:
+            self._orig_sched(time, asset_id, action)
+            return
+        self._orig_sched(time, asset_id, action, event_type, message)
+        for e in env._events:
+            if id(e) not in before:
+                self.req[id(e)] = (e, event_type)
+
+    def prio_of(self, ev):
+        r = self.req.get(id(ev))
+        return r[1] if r is not None and r[0] is ev else ev.event_type
+
     def head_check(self, snap, now_before):
         env = self.env
         if env.now < now_before:
@@ -506,6 +527,7 @@ class Monitor:
             self.bad('C01.head-min', f'one step removed {len(removed)} events from the queue at {env.now}')
         x = removed[0]
         if x.cancelled:
+            self.req.pop(id(x), None)
             return
         if x.time != env.now:
             self.bad('C01.clock', f'clock {env.now} differs from the time {x.time} of the executed event')
@@ -516,13 +538,15 @@ class Monitor:
             if e.time < x.time:
                 self.bad('C01.head-min', f'dispatched an event due at {x.time} while a live event due at {e.time} '
                          f'was pending')
-            if e.time == x.time and e.event_type != x.event_type:
+            pe, px = self.prio_of(e), self.prio_of(x)
+            if e.time == x.time and pe != px:
                 tie = True
-                if e.event_type > x.event_type:
-                    self.bad('C01.head-min', f'at time {x.time} dispatched priority {float(x.event_type)} before '
-                             f'pending priority {float(e.event_type)}')
+                if pe > px:
+                    self.bad('C01.head-min', f'at time {x.time} dispatched priority {float(px)} before '
+                             f'pending priority {float(pe)}')
         if tie:
             self.c['prio_ties'] += 1
+        self.req.pop(id(x), None)
 
     # ------------------------------------------------------------------------------ after each event
     def adopt_late_devices(self):
